@@ -225,6 +225,23 @@ def run(job, seed):
                                       _case(cls, how, api, rep, tk, exc, args,
                                             kwargs, debug, None), 'a record',
                                       'none', 'table')
+                # the same two calls once more in the opposite order (raise
+                # first, return second): each call is judged on its own, so
+                # the outcomes must be the ones already seen
+                for do_raise in (True, False):
+                    acc.ev()
+                    again = (call(P, enf, api, rule, make_target(tk),
+                                  make_creds(rep), do_raise, exc, args,
+                                  kwargs), list(CALLS))
+                    if _norm(again) != _norm(res[(False, do_raise)]):
+                        acc.violation(
+                            'order-dependent|%s|%s|%s' % (cls, how, api),
+                            'the call with do_raise=%s gave %r when it came '
+                            'first and %r when repeated after the others' %
+                            (do_raise, res[(False, do_raise)], again),
+                            _case(cls, how, api, rep, tk, exc, args, kwargs,
+                                  False, do_raise), res[(False, do_raise)],
+                            again, 'table')
                 for debug in (False, True):
                     for do_raise in (False, True):
                         acc.case('table', do_raise or debug)
